@@ -68,6 +68,8 @@ class PoolRaster:
         coords = {k: (k, np.array(v, copy=True)) for k, v in spec.get("coords", {}).items()}
         for k, v in spec.get("scalar_coords", {}).items():
             coords[k] = v
+        for k, v in spec.get("coords2d", {}).items():
+            coords[k] = (tuple(spec["dims"][-2:]), np.array(v, copy=True))
         self.da = xr.DataArray(payload, dims=tuple(spec["dims"]), coords=coords,
                                attrs=copy.deepcopy(spec.get("attrs", {})), name=spec.get("name"))
         self.meta_digest = meta_digest(self.da)
@@ -150,7 +152,7 @@ def meta_diff(cur, spec):
         out["dims"] = [list(cur.dims), list(spec["dims"])]
     if cur.name != spec.get("name"):
         out["name"] = [repr(cur.name), repr(spec.get("name"))]
-    want_coords = set(spec.get("coords", {})) | set(spec.get("scalar_coords", {}))
+    want_coords = set(spec.get("coords", {})) | set(spec.get("scalar_coords", {})) | set(spec.get("coords2d", {}))
     if set(map(str, cur.coords)) != set(map(str, want_coords)):
         out["coord_names"] = [sorted(map(str, cur.coords)), sorted(map(str, want_coords))]
     for k, v in spec.get("coords", {}).items():
@@ -410,7 +412,7 @@ def check_c10(entry, rasters, o, extra_pool=()):
             v.append({"class": "identity_shape", "got": list(out.shape), "want": list(want_shape)})
         if list(out.dims) != list(spec["dims"]):
             v.append({"class": "identity_dims", "got": list(out.dims), "want": list(spec["dims"])})
-        want_names = set(spec.get("coords", {})) | set(spec.get("scalar_coords", {}))
+        want_names = set(spec.get("coords", {})) | set(spec.get("scalar_coords", {})) | set(spec.get("coords2d", {}))
         got_names = set(map(str, out.coords))
         if got_names != want_names:
             v.append({"class": "identity_coords", "missing": sorted(want_names - got_names),
@@ -422,6 +424,25 @@ def check_c10(entry, rasters, o, extra_pool=()):
             for k, val in spec.get("scalar_coords", {}).items():
                 if np.asarray(out.coords[k].values).shape != () or out.coords[k].values != val:
                     v.append({"class": "identity_coords", "coord": k, "detail": "scalar coordinate differs"})
+            for k, val in spec.get("coords2d", {}).items():
+                if not util.same_bits(np.asarray(out.coords[k].values), np.asarray(val)):
+                    v.append({"class": "identity_coords", "coord": k, "detail": "2-D coordinate differs"})
+            if not v:
+                # the output's coordinates are the caller's to edit: writing into a non-index coordinate of
+                # the result (scalar or 2-D; index coordinates are immutable) must not show in the input
+                wrote = False
+                for k in list(out.coords):
+                    if k in out.dims:
+                        continue
+                    try:
+                        arr = out.coords[k].variable._data
+                        if isinstance(arr, np.ndarray) and arr.flags.writeable:
+                            arr[...] = SENTINEL
+                            wrote = True
+                    except Exception:
+                        pass
+                if wrote and src.problems(allow_widen=(ident == "viewshed")):
+                    v.append({"class": "write_to_output_coords_changes_input", "raster": src.rid})
         want_attrs = copy.deepcopy(spec.get("attrs", {}))
         if ident == "hotspots":
             want_attrs["unit"] = "%"
